@@ -22,6 +22,8 @@ that).  Hex strings may be "" or "-" for empty.
 Call SEQUENCES: {"id": .., "seq": [<request>, <request>, ...]} executes the requests IN ORDER in ONE process (one
 forked child, the library loaded once): whatever the library remembers from one call to the next is in effect.  Reply:
 {"id": .., "seq": [<reply>, <reply>, ...]} (or one "crash" reply for the whole sequence).
+With "partial": true in the sequence request every reply is handed to the parent as soon as its call has returned; when the
+library kills the process in call k, the crash reply carries "seq_partial": [<reply 0>, .., <reply k-1>].
 """
 import ctypes
 import json
@@ -127,6 +129,17 @@ def run_forked(f, req):
             os.close(r_out)
             os.close(r_err)
             os.dup2(w_err, 2)
+            if "seq" in req and req.get("partial"):
+                # every reply is handed over as soon as its call has returned, so that the replies of the calls made
+                # BEFORE the library kills the process are not lost
+                for i, q in enumerate(req["seq"]):
+                    for k in ("pw", "salt", "n", "r", "p", "dklen"):
+                        if k not in q:
+                            raise KeyError(k)
+                    r = run_case(f, q)
+                    r["id"] = i
+                    os.write(w_out, (json.dumps(r) + "\n").encode())
+                os._exit(0)
             res = run_seq(f, req) if "seq" in req else run_case(f, req)
             os.write(w_out, json.dumps(res).encode())
             os._exit(0)
@@ -152,13 +165,29 @@ def run_forked(f, req):
     os.close(r_out)
     os.close(r_err)
     _, status = os.waitpid(pid, 0)
+    partial = None
+    if "seq" in req and req.get("partial"):
+        partial = []
+        for ln in data.decode(errors="replace").splitlines():
+            try:
+                partial.append(json.loads(ln))
+            except ValueError:
+                break
     if os.WIFSIGNALED(status):
         sig = os.WTERMSIG(status)
         try:
             name = signal.Signals(sig).name
         except ValueError:
             name = "SIG%d" % sig
-        return {"id": req.get("id"), "crash": name, "stderr": err.decode(errors="replace")}
+        res = {"id": req.get("id"), "crash": name, "stderr": err.decode(errors="replace")}
+        if partial is not None:
+            res["seq_partial"] = partial
+        return res
+    if partial is not None and os.WEXITSTATUS(status) == 0:
+        return {"id": req.get("id"), "seq": partial}
+    if partial is not None:
+        return {"id": req.get("id"), "error": "child exited %d" % os.WEXITSTATUS(status), "seq_partial": partial,
+                "stderr": err.decode(errors="replace")}
     if data:
         return json.loads(data.decode())
     return {"id": req.get("id"), "error": "child exited %d without a result" % os.WEXITSTATUS(status),
